@@ -84,7 +84,9 @@ def _mods():
 
 
 def _rand_str(rng):
-    return rng.choice(["", "a", "chr1", "ENST00000371588.9", "read/1", "x" * rng.randint(0, 40)])
+    # identifiers are arbitrary text: non-ASCII characters take 2-4 bytes each in the stream
+    return rng.choice(["", "a", "chr1", "ENST00000371588.9", "read/1", "x" * rng.randint(0, 40), "g\u00e8ne", "Gro\u00dfhirn_\u00e9",
+                       "\u6837\u672c1", "\U0001F9EC" * rng.randint(1, 3)])
 
 
 def make_read_assignment(rng):
@@ -216,7 +218,12 @@ def _geneinfo_roundtrip(rng, tail):
 
 
 def replay_roundtrip(d):
-    p = roundtrip_once(d["inputs"]["seed"])
+    try:
+        p = native.time_limited(roundtrip_once, 20, d["inputs"]["seed"])
+    except native.TimeLimit as e:
+        p = ["the readers did not finish: %s" % e]
+    except Exception as e:
+        p = ["exception %s: %s" % (type(e).__name__, e)]
     return (not p), "seed %s: %s" % (d["inputs"]["seed"], p or "round trip ok")
 
 
@@ -229,7 +236,11 @@ def c15_native(tier, rng):
     viol = []
     for k in range(n):
         try:
-            p = roundtrip_once(base + k)
+            p = native.time_limited(roundtrip_once, 20, base + k)
+        except native.TimeLimit as e:
+            p = ["the readers did not finish: %s (a round trip takes milliseconds)" % e]
+        except MemoryError as e:
+            p = ["MemoryError while reading the stream back"]
         except Exception as e:
             p = ["exception %s: %s" % (type(e).__name__, e)]
         if p:
